@@ -121,7 +121,7 @@ def build_impl(flavours=("A", "W", "A_asan", "W_asan"), extra_defines=(), driver
             if rc != 0:
                 raise RuntimeError("driver does not link (%s): %s\n%s" % (fl, " ".join(cmd), o[-3000:]))
     exes = {fl: (v[0] if isinstance(v, tuple) else v) for fl, v in exes.items()}
-    prune(os.path.join(BUILD, "impl"), 6)
+    prune(os.path.join(BUILD, "impl"), int(os.environ.get("VERIF_KEEP", "6")))
     return exes
 
 # ----------------------------------------------------------------------------- model build
@@ -299,6 +299,9 @@ class Findings:
                 f["id"], f["shape"], f.get("call_site", ""), f.get("witness", ""), f.get("what", ""), state, self.hits[f["shape"]]))
 
 # ----------------------------------------------------------------------------- verdicts and evidence
+# evidence/ and replays/ go under VERIF_OUT when set (self-tests on scratch copies must not overwrite the real tree's evidence)
+OUT = os.environ.get("VERIF_OUT") or VERIF
+
 class Check:
     def __init__(self, pid, tier, seed):
         self.pid = pid; self.tier = tier; self.seed = seed
@@ -310,7 +313,7 @@ class Check:
         self.assumptions = []
         self.rng = random.Random(seed)
         self._replay_n = 0
-        rdir = os.path.join(VERIF, "replays", pid)
+        rdir = os.path.join(OUT, "replays", pid)
         if os.path.isdir(rdir):
             for f in os.listdir(rdir):
                 if f.startswith(tier + "_"): os.remove(os.path.join(rdir, f))
@@ -318,12 +321,12 @@ class Check:
     def violation(self, what, replay, found_input=True):
         if len(self.violations) >= 20:
             self.violations.append(None); return
-        os.makedirs(os.path.join(VERIF, "replays", self.pid), exist_ok=True)
+        os.makedirs(os.path.join(OUT, "replays", self.pid), exist_ok=True)
         self._replay_n += 1
         path = os.path.join("replays", self.pid, "%s_%03d.json" % (self.tier, self._replay_n))
         replay = dict(replay); replay["property"] = self.pid; replay["what"] = what
         replay["replay_cmd"] = "./check %s --replay %s" % (self.pid, path)
-        with open(os.path.join(VERIF, path), "w") as f: json.dump(replay, f, indent=1)
+        with open(os.path.join(OUT, path), "w") as f: json.dump(replay, f, indent=1)
         self.violations.append((what, path, found_input))
 
     def known_finding(self, text):
@@ -351,8 +354,8 @@ class Check:
         ev = {"property_id": self.pid, "tier": self.tier, "seed": self.seed, "level": level,
               "coverage": cov, "assumptions": self.assumptions, "wall_s": round(time.time() - self.t0, 2),
               "violations": len(real), "known_findings_replayed": self.known}
-        os.makedirs(os.path.join(VERIF, "evidence"), exist_ok=True)
-        with open(os.path.join(VERIF, "evidence", self.pid + ".json"), "w") as f:
+        os.makedirs(os.path.join(OUT, "evidence"), exist_ok=True)
+        with open(os.path.join(OUT, "evidence", self.pid + ".json"), "w") as f:
             json.dump(ev, f, indent=1)
         for k in self.known:
             print("KNOWN-FINDING: property=%s %s" % (self.pid, k))
